@@ -3,6 +3,7 @@
 The AST is documented in vf/model/interp.py.  Everything printed is an unambiguous token so the
 rendered string identifies which fill / default / binding / provider produced each position.
 """
+import json
 import random
 import re
 
@@ -169,6 +170,8 @@ class Built:
         inject = list(spec.get("inject", []))
         pyrender = list(spec.get("pyrender", []))
         built = self
+        # (get_context_data() may return an EMPTY dict: the id is only added for programs that echo it)
+        uses_cid = '"idecho"' in json.dumps(self.program)
 
         def get_context_data(self, **kwargs):
             if fp is not None:
@@ -176,7 +179,8 @@ class Built:
             d = dict(data)
             for kk, vv in kwargs.items():
                 d["k_" + kk] = vv
-            d["cid"] = self.id
+            if uses_cid:
+                d["cid"] = self.id
             for key, default in inject:
                 if fp is not None:
                     fp.tick("inject", cname)
@@ -270,7 +274,7 @@ class ProgGen:
             self.cur_data = {}
             allowed = names[i + 1 :]
             spec = {"data": self.cur_data, "inject": []}
-            if self.flavour == "scope":
+            if self.flavour == "scope" and rng.random() >= 0.2:  # (a fifth of the classes returns an empty dict)
                 for v in VAR_NAMES:
                     if rng.random() < 0.5:
                         self.cur_data[v] = f"D{cname}.{v}"
